@@ -27,7 +27,8 @@ def canon_err(e):
     (which spells the path as it was given on the command line)"""
     e = re.sub(r"\x1b\[[0-9;]*m", "", e or "")
     m = re.search(r"ERROR:.*", e, re.S)
-    return (m.group(0) if m else e).strip()[:120]
+    e = (m.group(0) if m else e).strip()
+    return re.sub(r"_Anon\d+", "_Anon#", e)[:160]      # anonymous names in a message are renumbered like those of an output
 
 def defined_names(text, synth):
     out = []
@@ -112,21 +113,27 @@ def run(tier, seed, build):
                     fixed = None
             dist["targets"] += 1
             outs = {}   # (backend) -> list of (label, canon text)
+            plan = []
             for hs in seeds:
                 for nearlier in ([0, 2] if tier == "quick" else [0, 1, 3]):
                     for where in ("root", "parent"):
                         jobs = []
                         for k in range(nearlier):
                             o = others[k]
-                            jobs.append({"cwd": oroots[k], "base": o["base"], "args": o["args"], "includes": o["includes"] or None, "synth": True, "out": "o.pil", "save": "o.save"})
+                            jobs.append({"cwd": oroots[k], "base": o["base"], "args": o["args"], "includes": o["includes"] or None, "synth": True, "out": "o_%d_%d_%s.pil" % (hs, nearlier, where), "save": "o_%d_%d_%s.save" % (hs, nearlier, where)})
                         for synth in (True, False):
                             if where == "root":
                                 j = {"cwd": troot, "base": target["base"], "includes": target["includes"] or None, "fixed": "fix.fixed" if fixed else None}
                             else:
                                 j = {"cwd": os.path.dirname(troot), "base": "pT/" + target["base"], "includes": ["pT/" + i for i in target["includes"]] or None, "fixed": "pT/fix.fixed" if fixed else None}
-                            j.update(args=target["args"], synth=synth, out=os.path.join(troot, "out_%d_%d_%s_%s" % (hs, nearlier, where, "pil" if synth else "des")), save=os.path.join(troot, "out.save"))
+                            j.update(args=target["args"], synth=synth, out=os.path.join(troot, "out_%d_%d_%s_%s" % (hs, nearlier, where, "pil" if synth else "des")), save=os.path.join(troot, "out_%d_%d_%s_%s.save" % (hs, nearlier, where, "pil" if synth else "des")))
                             jobs.append(j)
-                        res, err = run_history(wd, jobs, hs)
+                        plan.append((hs, nearlier, where, jobs))
+            # the histories are independent fresh processes: run them side by side
+            from concurrent.futures import ThreadPoolExecutor
+            with ThreadPoolExecutor(max_workers=12) as ex:
+                done = list(ex.map(lambda pl: run_history(wd, pl[3], pl[0]), plan))
+            for (hs, nearlier, where, jobs), (res, err) in zip(plan, done):
                         dist["processes"] += 1
                         label = "hashseed=%d earlier=%d from=%s" % (hs, nearlier, where)
                         dist["histories"]["earlier=%d from=%s" % (nearlier, where)] = dist["histories"].get("earlier=%d from=%s" % (nearlier, where), 0) + 1
